@@ -9,7 +9,7 @@ Definition aw_solve (A B : list (list Q)) : list (list Q) :=
 (* regression of the former defect (before /repo a5b9e5b): the documented stand-alone use of admm -- n_const = 1, a constraint,
    order left at its default None -- raised (validate_constraints indexed its lists with None); the repaired code reads None as
    mode 0: the same call returns, and from x = 0 the non-negative ADMM iterates 1, 3/2, 7/4 approach the solution 2 of 2 x = 4.
-   Still raising: an order out of range, and n_iter_max = 0 (x_split unbound: known finding admm_zero_iterations). *)
+   Still raising, as it should: an order out of range. *)
 Lemma admm_order_none_witness :
   admm_before_a5b9e5b Qops aw_solve (Some 1%nat) None (KNonneg) [[4%Q]] [[2%Q]] [[0%Q]] [[0%Q]] 1 1 3 (1#10000)%Q = Err /\
   admm Qops aw_solve (Some 1%nat) None (KNonneg) [[4%Q]] [[2%Q]] [[0%Q]] [[0%Q]] 1 1 3 (1#10000)%Q = Ok ([[7#4]], [[7#4]], [[0]])%Q /\
@@ -18,8 +18,10 @@ Lemma admm_order_none_witness :
   admm Qops aw_solve (Some 1%nat) (Some 1%nat) (KNonneg) [[4%Q]] [[2%Q]] [[0%Q]] [[0%Q]] 1 1 3 (1#10000)%Q = Err /\
   admm Qops aw_solve None None (KNone) [[4%Q]] [[2%Q]] [[0%Q]] [[0%Q]] 1 1 100 (1#10000)%Q = Ok ([[2]], [[1]], [[0]])%Q.
 Proof. vm_compute. repeat split; reflexivity. Qed.
-(* the open defect: n_iter_max = 0 (a documented value: 'Maximum number of iteration') raises, whatever the other arguments *)
+(* regression of the former defect (before /repo fe4edf7): n_iter_max = 0 raised UnboundLocalError (x_split was only bound inside the
+   loop); the repaired code binds x_split = x^T before the loop and returns the start *)
 Lemma admm_zero_iterations_witness :
-  admm Qops aw_solve None None (KNone) [[4%Q]] [[2%Q]] [[0%Q]] [[0%Q]] 1 1 0 (1#10000)%Q = Err /\
-  admm Qops aw_solve (Some 1%nat) (Some 0%nat) (KNonneg) [[4%Q]] [[2%Q]] [[0%Q]] [[0%Q]] 1 1 0 (1#10000)%Q = Err.
-Proof. vm_compute. split; reflexivity. Qed.
+  admm_before_fe4edf7 Qops aw_solve None None (KNone) [[4%Q]] [[2%Q]] [[1%Q]] [[0%Q]] 1 1 0 (1#10000)%Q = Err /\
+  admm Qops aw_solve None None (KNone) [[4%Q]] [[2%Q]] [[1%Q]] [[0%Q]] 1 1 0 (1#10000)%Q = Ok ([[1]], [[1]], [[0]])%Q /\
+  admm Qops aw_solve (Some 1%nat) (Some 5%nat) (KNonneg) [[4%Q]] [[2%Q]] [[1%Q]] [[0%Q]] 1 1 0 (1#10000)%Q = Ok ([[1]], [[1]], [[0]])%Q.
+Proof. vm_compute. repeat split; reflexivity. Qed.
